@@ -324,6 +324,38 @@ func c17More() []c17inst {
 			}, dts: num})
 		}
 	}
+	// generic Reduce with a NON-ZERO default value (3). The library folds the default in along the last axis only (the
+	// first- and middle-axis folds start from the first element): that axis dependence is the same for every element
+	// type, which is all C17 asks, so the type-generic definition here follows it.
+	for _, ax := range []int{0, 1, 2} {
+		ax := ax
+		out = append(out, c17inst{family: "reduce-generic", op: "Reduce(add,default=3)", variant: "C-axis" + string(rune('0'+ax)), run: func(d ref.DT) ([]interface{}, bool, string) {
+			vals := c17Vals(d, rvals)
+			b := buildVerified(d, rshape, vals, "C")
+			if b == nil {
+				return nil, true, ""
+			}
+			t := d.D.Type
+			fn := reflect.MakeFunc(reflect.FuncOf([]reflect.Type{t, t}, []reflect.Type{t}, false), func(in []reflect.Value) []reflect.Value {
+				return []reflect.Value{reflect.ValueOf(ref.Arith("Add", in[0].Interface(), in[1].Interface()).V)}
+			}).Interface()
+			return resOfD(b.T.Reduce(fn, ax, d.Code(3)))
+		}, generic: func() []float64 {
+			a := ref.Arr{DT: ref.Float64, Shape: rshape, El: make([]interface{}, len(rvals))}
+			for i, k := range rvals {
+				a.El[i] = float64(k)
+			}
+			res := reduceModel(a, []int{ax}, func(x, y interface{}) interface{} { return x.(float64) + y.(float64) })
+			o := make([]float64, len(res.El))
+			for i, e := range res.El {
+				o[i] = e.(float64)
+				if ax == 2 {
+					o[i] += 3
+				}
+			}
+			return o
+		}, dts: num})
+	}
 	// generic Reduce with a selecting function (keeps the later element): defined for EVERY element type
 	for _, ax := range []int{0, 1, 2} {
 		ax := ax
